@@ -48,16 +48,56 @@ def units(tier):
     rng = random.Random(seed())
     specs, n_exh = small_specs(tier, rng, chains_quick=60, chains_thorough=1500, fixed_quick=300, fixed_thorough=5000)
     maxtok = 4 if tier == "quick" else 5
-    return [{"specs": [s.to_json() for s in ch], "maxtok": maxtok, "seed": seed() * 1000 + i}
-            for i, ch in enumerate(chunks(specs, 48))]
+    us = [{"specs": [s.to_json() for s in ch], "maxtok": maxtok, "seed": seed() * 1000 + i}
+          for i, ch in enumerate(chunks(specs, 48))]
+    us.append({"kind": "deep"})
+    return us
+
+
+# long inputs: the depth of the derivation must not matter (sentence, unambiguous list grammars)
+DEEP = [("L: L 'x' | 'x';", [50, 400, 1500]), ("R: 'x' R | 'x';", [50, 400, 1200]),
+        ("L: L I | I; I: 'x' | 'x' 'x';", [60, 300])]
+
+
+def run_deep(res):
+    st = res["stats"]
+    for gtxt, sizes in DEEP:
+        g = Grammar.from_string(gtxt)
+        p = GLRParser(g)
+        for k in sizes:
+            text = "x" * k
+            case = {"grammar": gtxt, "input_length": k, "tables": "LALR"}
+            res["evaluations"] += 1
+            try:
+                with budget(20):
+                    f = p.parse(text)
+                    f.solutions
+                st["accepted"] += 1
+                res["nontrivial"].append(h16(case))
+            except parglare.SyntaxError:
+                res["violations"].append({"kind": "glr-rejects-sentence", "case": case})
+            except BudgetExceeded:
+                res["violations"].append({"kind": "glr-parse-timeout", "case": case})
+            except Exception as e:
+                v = {"kind": "foreign-exception", "case": case,
+                     "observed": type(e).__name__ + ": " + str(e)[:80]}
+                # F-GLR-4: _reduce/_do_reductions (and the reductions cascading after the last shift of a right
+                # recursive list) recurse once per pending reduction level: CPython's recursion limit is hit on
+                # long right-recursive inputs
+                if isinstance(e, RecursionError) and k > 450 and gtxt.startswith("R:"):
+                    v["attribution"] = "glr-recursion-depth"
+                res["violations"].append(v)
+    return res
 
 
 def run_unit(u):
     res = {"evaluations": 0, "nontrivial": [], "samples": [], "violations": [], "disagreements": [],
            "stats": {"parsers": 0, "accepted": 0, "rejected": 0, "trees_checked": 0, "ambiguous": 0,
                      "traces": 0, "build_errors": {}, "features": {}}}
-    rng = random.Random(u["seed"])
     st = res["stats"]
+    if u.get("kind") == "deep":
+        return run_deep(res)
+    rng = random.Random(u["seed"])
     for sj in u["specs"]:
         spec = gen.GSpec.from_json(sj)
         gtxt = spec.text()
